@@ -47,7 +47,7 @@ class Builder:
 
     def __init__(self, prog: Program | None, func: Func | None, env=None, facts=None, *,
                  positive=DEFAULT_POSITIVE, erase_casts=True, inline_depth=3, self_prefix="self",
-                 inline_filter=None):
+                 inline_filter=None, erase_layout=False):
         self.prog, self.func = prog, func
         self.env = dict(env or {})
         self.facts = facts or Facts()
@@ -55,13 +55,14 @@ class Builder:
         self.erase_casts = erase_casts
         self.inline_depth = inline_depth
         self.inline_filter = inline_filter
+        self.erase_layout = erase_layout
         self.stores: dict[str, object] = {}   # dotted attribute path -> term (last store on this path)
         self.effects: list = []               # (kind, detail) for calls evaluated as statements
 
     def child(self, env=None, facts=None):
         b = Builder(self.prog, self.func, self.env if env is None else env, facts or self.facts,
                     positive=self.positive, erase_casts=self.erase_casts, inline_depth=self.inline_depth,
-                    inline_filter=self.inline_filter)
+                    inline_filter=self.inline_filter, erase_layout=self.erase_layout)
         b.stores = dict(self.stores)
         return b
 
@@ -147,7 +148,7 @@ class Builder:
                 return a.pow(int(k))
             return app("pow", a, b)
         if isinstance(op, ast.Mod):
-            return app("mod", a, b)
+            return nf.mk_mod(a, b)
         if isinstance(op, ast.FloorDiv):
             return app("floordiv", a, b)
         if isinstance(op, ast.BitAnd):
@@ -342,7 +343,7 @@ class Builder:
             else:
                 return None
         sub = Builder(self.prog, callee, {}, self.facts, positive=self.positive, erase_casts=self.erase_casts,
-                      inline_depth=self.inline_depth - 1, inline_filter=self.inline_filter)
+                      inline_depth=self.inline_depth - 1, inline_filter=self.inline_filter, erase_layout=self.erase_layout)
         for n in rest:
             if n not in env:
                 if n in defaults:
@@ -430,6 +431,13 @@ class Builder:
                 return args[0]
             if n in ("tensor", "as_tensor", "scalar_tensor") and not is_method and len(args) == 1:
                 return args[0]
+        if self.erase_layout:
+            if n in ("unsqueeze", "squeeze", "contiguous", "expand") and is_method and args:
+                return args[0]
+            if n == "rearrange" and not is_method and args:
+                return args[0]
+            if n == "arange" and not is_method:
+                return sym("j")
         if n in IDENTITY_CASTS and not is_method and args:
             return args[0] if len(args) == 1 else tuple(args)
         if n in ("zeros", "zeros_like") and len(args) >= 1:
@@ -587,23 +595,63 @@ class Builder:
             self.assign(tgt.value, app("starred", v))
 
 
-def prime(b: "Builder", fnode: ast.AST, upto: ast.AST, skip=()):
-    """Execute, in source order, the simple local assignments of `fnode` that precede `upto` (def-use substitution of
-    extracted temporaries), so that an expression at `upto` can be evaluated with locals expanded."""
-    limit = (getattr(upto, "lineno", 10 ** 9), getattr(upto, "col_offset", 0))
-    from .model import walk_ordered
-    for st in walk_ordered(fnode):
-        if isinstance(st, (ast.Assign, ast.AnnAssign)) and (st.lineno, st.col_offset) < limit and st is not upto:
-            tg = st.targets[0] if isinstance(st, ast.Assign) else st.target
-            if isinstance(tg, ast.Name) and tg.id not in skip and getattr(st, "value", None) is not None:
-                if tg.id in b.env and isinstance(b.env[tg.id], Rat) and b.env[tg.id].as_atom() is not None and b.env[tg.id].as_atom().op == "sym" \
-                        and b.env[tg.id].as_atom().args[0] != tg.id:
-                    continue    # a role symbol bound by the caller: keep it
-                try:
-                    b.stmt(st)
-                except Opaque:
-                    pass
+def prime(b: "Builder", fnode: ast.AST, upto: ast.AST, skip=(), take_if=None):
+    """Execute the simple local assignments that *dominate* `upto` (statements of the enclosing blocks that precede the
+    statement chain leading to `upto`), so an expression at `upto` can be evaluated with extracted temporaries expanded.
+    Assignments inside sibling compound statements are not executed, except the bodies of sibling `if`s whose test text
+    satisfies `take_if` (e.g. the `if not forward:` adjustment when reasoning about the backward case)."""
+    def contains(node, target):
+        return any(x is target for x in ast.walk(node))
+
+    def do_assign(st):
+        tg = st.targets[0] if isinstance(st, ast.Assign) else st.target
+        names = [tg] if isinstance(tg, ast.Name) else ([e for e in tg.elts if isinstance(e, ast.Name)] if isinstance(tg, (ast.Tuple, ast.List)) else [])
+        if not names or any(n.id in skip for n in names) or getattr(st, "value", None) is None:
+            return
+        try:
+            b.stmt(st)
+        except Opaque:
+            pass
+
+    def walk_block(stmts):
+        for st in stmts:
+            if st is upto or contains(st, upto):
+                if st is upto:
+                    return True
+                for blk in _blocks(st):
+                    if any(contains(x, upto) or x is upto for x in blk):
+                        return walk_block(blk)
+                return True
+            if isinstance(st, (ast.Assign, ast.AnnAssign)):
+                do_assign(st)
+            elif isinstance(st, ast.With):
+                walk_block_noreturn(st.body)
+            elif isinstance(st, ast.If) and take_if is not None and take_if(ast.unparse(st.test)):
+                walk_block_noreturn(st.body)
+        return False
+
+    def walk_block_noreturn(stmts):
+        for st in stmts:
+            if isinstance(st, (ast.Assign, ast.AnnAssign)):
+                do_assign(st)
+            elif isinstance(st, ast.With):
+                walk_block_noreturn(st.body)
+
+    walk_block(strip_doc(fnode.body) if isinstance(fnode, (ast.FunctionDef, ast.AsyncFunctionDef)) else fnode)
     return b
+
+
+def _blocks(st):
+    out = []
+    for fld in ("body", "orelse", "finalbody"):
+        v = getattr(st, fld, None)
+        if isinstance(v, list) and v and isinstance(v[0], ast.stmt):
+            out.append(v)
+    for h in getattr(st, "handlers", []) or []:
+        out.append(h.body)
+    for c in getattr(st, "cases", []) or []:
+        out.append(c.body)
+    return out
 
 
 def simple_function(node: ast.FunctionDef) -> bool:
